@@ -8,16 +8,18 @@ MONITORS = tuple('C06'.split(','))
 
 
 def check(tier, seed, procs):
+    # additional phase: statement-level interleavings of pairs of these operations under a row-lock model (vf/txpairs.py);
+    # run first (its forked workers then copy a small heap), merged into the result at the end; it never raises
+    from vf import txpairs
+
+    phase = txpairs.run_phase(tier, procs, ('C06',))
     depth = 5 if tier == 'quick' else 8
     res = bf.run(MONITORS, base.setups(tier), tier, depth, procs, time_budget=55 if tier == 'quick' else 1500)
     cov = bf.coverage(res, f'1 batch, update 1 committed (2-3 jobs, 1-2 nested groups), update 2 submitted step by step '
                            f'(1-2 jobs, 0-1 groups, 1-2 bunches), 2 pool instances, depth {depth}; monitors {MONITORS}')
     out = {'coverage': cov, 'violations': res.violations, 'assumptions': bf.ASSUME,
            'vacuous': None if res.states > 100 else f'only {res.states} states'}
-    # additional phase: statement-level interleavings of pairs of these operations under a row-lock model (vf/txpairs.py)
-    from vf import txpairs
-
-    return txpairs.merge_into(out, tier, procs, ('C06',))
+    return txpairs.merge_into(out, phase)
 
 
 def replay(obj):
